@@ -93,6 +93,8 @@ package metric
 //@   ensures[C12] v2EnvKnown(m) ==> result === nil
 //@   ensures[C12] !v2EnvKnown(m) ==> result != nil
 //@   ensures[C11] m == nil ==> is(result, ErrNoEnvironmentalMetrics)
+//@   ensures[C11] m != nil && !v2BaseKnown(m.Temporal.Base) ==> is(result, ErrNoBaseMetrics)
+//@   ensures[C11] m != nil && v2BaseKnown(m.Temporal.Base) && !v2TemporalKnown(m.Temporal) ==> is(result, ErrNoTemporalMetrics)
 //@   ensures[C11] m != nil && v2TemporalKnown(m.Temporal) && !v2EnvKnown(m) ==> is(result, ErrNoEnvironmentalMetrics)
 
 // Environmental.Score is decided in stages (cut points); ghost integers: kb (Base.Score), kab (adjusted base score =
